@@ -156,7 +156,7 @@ def mstep (d : DSt) (toks : List String) : DSt × String :=
   | "init" :: rest =>
     match (kv? "statics" rest).bind String.toNat?, (kv? "ns" rest).bind natList? with
     | some n, some nss =>
-      let m : MSt := { statics := List.replicate n false, varying := nss.map fun x => (x, false) }
+      let m : MSt := MonitorEnable.initial (List.replicate n false) nss
       ({ d with mon := m }, mdump m)
     | _, _ => (d, "bad-op")
   | ["ea-begin"] => (d, mdump d.mon)      -- the call has started; nothing done yet
@@ -187,6 +187,12 @@ def mstep (d : DSt) (toks : List String) : DSt × String :=
   | ["nsStore", n] =>
     match n.toNat? with
     | some n => match MonitorEnable.step true d.mon (.nsStore n) with
+      | some m => ({ d with mon := m }, mdump m)
+      | none => (d, "disabled")
+    | none => (d, "bad-op")
+  | ["nsDel", n] =>
+    match n.toNat? with
+    | some n => match MonitorEnable.step true d.mon (.nsDel n) with
       | some m => ({ d with mon := m }, mdump m)
       | none => (d, "disabled")
     | none => (d, "bad-op")
